@@ -178,12 +178,21 @@ func concWorkerMain(args []string) {
 	rounds := 40
 	fmt.Sscan(args[0], &seed)
 	fmt.Sscan(args[1], &rounds)
-	base := newRng(seed ^ hashStr("C13"))
+	var proc uint64
+	if len(args) > 2 {
+		fmt.Sscan(args[2], &proc)
+	}
+	base := newRng(seed ^ hashStr("C13") ^ (proc * 0x9e3779b97f4a7c15))
 	evals, distinct := 0, 0
 	for round := 0; round < rounds; round++ {
 		r := base.fork()
-		c := genStream(pick(r, []string{"wellformed", "prereqs", "bigseg", "segments", "rollouts", "targets", "targets", "manykinds"}), r.fork(), fmt.Sprintf("C13/%d/%d", seed, round))
-		if round%2 == 1 {
+		streams := []string{"rollouts", "bigseg", "wellformed", "segments", "prereqs", "targets", "manykinds", "targets"}
+		name := pick(r, streams)
+		if round == 0 {
+			name = streams[int(proc)%len(streams)] // the cold round of this process
+		}
+		c := genStream(name, r.fork(), fmt.Sprintf("C13/%d/%d/%d", seed, proc, round))
+		if (round+int(proc)/len(streams))%2 == 1 {
 			c = concOperandScenario(r.fork(), fmt.Sprintf("C13/%d/%d", seed, round))
 		}
 		sanitizeCase(c)
@@ -226,6 +235,44 @@ func concWorkerMain(args []string) {
 		}
 		evSeq, pairsSeq, trSeq := mk()
 		ev, pairs, trConc := mk()
+		// The concurrent phase runs FIRST, the sequential baseline afterwards: whatever the library
+		// initialises lazily — per value, per evaluator or per process — is initialised by racing
+		// goroutines, not by a warm-up. (For per-process state only the first round of a process
+		// is cold; checkC13 therefore spreads the rounds over several worker processes.)
+		nG := pick(r, []int{4, 8, 16, 32})
+		var wg sync.WaitGroup
+		var mu sync.Mutex
+		mismatch := ""
+		done := make([]int, len(pairs)) // how often each pair was evaluated concurrently
+		type obsAt struct {
+			i   int
+			got string
+		}
+		seenConc := make([][]obsAt, nG)
+		start := make(chan struct{})
+		for gi := 0; gi < nG; gi++ {
+			wg.Add(1)
+			gr := r.fork()
+			gi := gi
+			go func() {
+				defer wg.Done()
+				defer func() {
+					if rec := recover(); rec != nil {
+						mu.Lock()
+						mismatch = fmt.Sprintf("panic in concurrent evaluation: %v", rec)
+						mu.Unlock()
+					}
+				}()
+				<-start
+				for it := 0; it < 60; it++ {
+					i := gr.intn(len(pairs))
+					got := evalPair(ev, pairs[i])
+					seenConc[gi] = append(seenConc[gi], obsAt{i, got})
+				}
+			}()
+		}
+		close(start)
+		wg.Wait()
 		baseline := make([]string, len(pairs))
 		baseTraffic := make([]map[string]int, len(pairs))
 		for i, p := range pairsSeq {
@@ -238,39 +285,14 @@ func concWorkerMain(args []string) {
 			seen[b] = true
 		}
 		distinct += len(seen)
-		nG := pick(r, []int{4, 8, 16, 32})
-		var wg sync.WaitGroup
-		var mu sync.Mutex
-		mismatch := ""
-		done := make([]int, len(pairs)) // how often each pair was evaluated concurrently
-		for gi := 0; gi < nG; gi++ {
-			wg.Add(1)
-			gr := r.fork()
-			go func() {
-				defer wg.Done()
-				defer func() {
-					if rec := recover(); rec != nil {
-						mu.Lock()
-						mismatch = fmt.Sprintf("panic in concurrent evaluation: %v", rec)
-						mu.Unlock()
-					}
-				}()
-				for it := 0; it < 60; it++ {
-					i := gr.intn(len(pairs))
-					got := evalPair(ev, pairs[i])
-					mu.Lock()
-					done[i]++
-					mu.Unlock()
-					if got != baseline[i] {
-						mu.Lock()
-						mismatch = fmt.Sprintf("pair %d: concurrent %s vs sequential %s", i, got, baseline[i])
-						mu.Unlock()
-						return
-					}
+		for _, obs := range seenConc {
+			for _, o := range obs {
+				done[o.i]++
+				if o.got != baseline[o.i] && mismatch == "" {
+					mismatch = fmt.Sprintf("pair %d: concurrent %s vs sequential %s", o.i, o.got, baseline[o.i])
 				}
-			}()
+			}
 		}
-		wg.Wait()
 		evals += nG * 60
 		if mismatch == "" {
 			// provider calls and log lines of all concurrent evaluations together: exactly those
@@ -302,7 +324,7 @@ func concOperandScenario(r *rng, id string) *EvalCase {
 	c := &EvalCase{ID: id, Kind: "eval", Opts: WOpts{Log: true, Rec: true}}
 	c.Store.Flags, c.Store.Segments = []WFlag{}, []WSegment{}
 	top := simpleFlag("top", true, 0, 2)
-	top.Form = pick(r, []string{"plain", "pre", "json"})
+	top.Form = pick(r, handForms)
 	// one context that really has the attribute of each of the four operand clauses
 	shared := WSCtx{Kind: "user", Key: pick(r, []string{"a", "b", "abc"}), Attrs: []WAttr{}}
 	for i := 0; i < 4; i++ {
@@ -357,12 +379,21 @@ func checkC13(seed uint64, replayDir, corpusDir string) (map[string]any, int) {
 		fatalf("C13 must run in the harness built with -race")
 	}
 	rounds := 400 * tierScale()
-	cmd := exec.Command(os.Args[0], "conc-worker", fmt.Sprint(seed), fmt.Sprint(rounds))
-	cmd.Env = append(os.Environ(), "GORACE=halt_on_error=0")
+	// several worker processes: state the library initialises once per process is cold only in the
+	// first round of each
+	const procs = 16
 	var stdout, stderr bytes.Buffer
-	cmd.Stdout, cmd.Stderr = &stdout, &stderr
-	err := cmd.Run()
+	var err error
+	for p := 0; p < procs; p++ {
+		cmd := exec.Command(os.Args[0], "conc-worker", fmt.Sprint(seed), fmt.Sprint((rounds+procs-1)/procs), fmt.Sprint(p))
+		cmd.Env = append(os.Environ(), "GORACE=halt_on_error=0")
+		cmd.Stdout, cmd.Stderr = &stdout, &stderr
+		if e := cmd.Run(); e != nil && err == nil {
+			err = e
+		}
+	}
 	os.MkdirAll(replayDir, 0o755)
+	totalRounds := 0
 	for _, line := range strings.Split(stdout.String(), "\n") {
 		if strings.HasPrefix(line, "MISMATCH") {
 			t.violation("concurrent", "a concurrent evaluation differs from the sequential one", map[string]any{"detail": line, "seed": seed})
@@ -371,11 +402,14 @@ func checkC13(seed uint64, replayDir, corpusDir string) (map[string]any, int) {
 			var ev, di, ro int
 			fmt.Sscanf(line, "STATS evaluations=%d distinct=%d rounds=%d", &ev, &di, &ro)
 			t.evaluations += ev
+			base := len(t.distinct)
 			for i := 0; i < di; i++ {
-				t.distinct[fmt.Sprint("d", i)] = true
+				t.distinct[fmt.Sprint("d", base+i)] = true
 			}
-			t.counts["rounds"] = ro
-			t.counts["concurrent_evaluations"] = ev
+			totalRounds += ro
+			t.counts["rounds"] = totalRounds
+			t.counts["concurrent_evaluations"] += ev
+			t.counts["worker_processes"]++
 		}
 	}
 	if strings.Contains(stderr.String(), "DATA RACE") {
